@@ -583,6 +583,44 @@ pub fn c07(id: &str, f: &Forest, r: &[(CompressionType, Enc)], out: &mut Vec<Str
             }
         }
     }
+    // (a') the same DOM through a long-lived Serializer that has already written every earlier case of this process
+    // (a value reused across serialize calls must not carry anything over): identical outcome to a fresh one
+    {
+        thread_local! {
+            static REUSED: [rbx_binary::Serializer<'static>; 3] = [
+                rbx_binary::Serializer::new().compression_type(CompressionType::None),
+                rbx_binary::Serializer::new().compression_type(CompressionType::Lz4),
+                rbx_binary::Serializer::new().compression_type(CompressionType::Zstd),
+            ];
+        }
+        let mut fresh: HashMap<u64, Ref> = HashMap::new();
+        let dom2 = forest::build_dom_history(f, &mut |l| *fresh.entry(l).or_insert_with(Ref::new), None, false);
+        let roots2: Vec<Ref> = f.roots.iter().map(|l| *fresh.entry(*l).or_insert_with(Ref::new)).collect();
+        for (c, e) in r {
+            let k = match c {
+                CompressionType::None => 0,
+                CompressionType::Lz4 => 1,
+                _ => 2,
+            };
+            let got = crate::binfile::guarded(|| {
+                REUSED.with(|s| {
+                    let mut buf = Vec::new();
+                    s[k].serialize(&mut buf, &dom2, &roots2).map(|_| buf).map_err(|e| e.to_string())
+                })
+            });
+            let same = match (&got, e) {
+                (Ok(Ok(b)), Enc::Bytes(b0)) => b == b0,
+                (Ok(Err(_)), Enc::Err(..)) => true,
+                (Err(_), Enc::Panic(_)) => true,
+                _ => false,
+            };
+            if !same && one_spelling(f) {
+                out.push(format!("{id} C07 reused-serializer-differs comp={c:?}: a Serializer value that has written earlier files gives {} where a fresh one gives {}",
+                    match &got { Ok(Ok(b)) => format!("{} bytes", b.len()), Ok(Err(m)) => format!("Err {}", cut(m)), Err(_) => "a panic".to_string() }, describe(e)));
+                return;
+            }
+        }
+    }
     if f.opt("rootdup").is_some() {
         // repeated / overlapping roots: determinism only (what such a file means is outside the round-trip properties)
         return;
